@@ -146,13 +146,12 @@ class KDMixCollator(KDSingleCollator):
             if x is not None:
                 x2_indices, permutation = self.shuffle(item=torch.arange(batch_size), permutation=permutation)
                 x_clone = x.clone()
-                bbox_idx = 0
                 for i in range(batch_size):
                     j = x2_indices[i]
-                    if use_cutmix[j]:
-                        top, left, bot, right = bbox[bbox_idx]
+                    # sample i decides operation, box and weight (lamb[i] is what its label is mixed with)
+                    if use_cutmix[i]:
+                        top, left, bot, right = bbox[i]
                         x[i, ..., top:bot, left:right] = x_clone[j, ..., top:bot, left:right]
-                        bbox_idx += 1
                     else:
                         x_lamb = lamb[i].view(*[1] * (x.ndim - 1))
                         x[i] = x[i].mul_(x_lamb).add_(x_clone[j].mul_(1 - x_lamb))
